@@ -62,6 +62,13 @@ def _corpus(rng, tier, dense):
     for v in VNAMES:
         for _ in range(2):
             cases.append("displayf %s %s" % (v, hx(suites.plausible_bin(rng, v))))
+        # Debug / pretty Debug of hashes with every kind of header byte (valid and invalid length codes and checksums)
+        ck = suites.VARIANTS[v][0]
+        for ln in (0, 1, 168, 169, 170, 171, 254, 255):
+            for c0 in (0, 48, 49, 255):
+                b = bytearray(suites.plausible_bin(rng, v))
+                b[0], b[ck] = c0, ln
+                cases.append("debugf %s %s" % (v, hx(b)))
     for v in VNAMES:
         cases.append("stream %s lie 1" % v)
         cases.append("stream %s d %s lie 1" % (v, hx(bytes(range(60)))))
